@@ -189,3 +189,7 @@ EB_REFENC = {'name': 'refenc', 'crate': 'gneiss-mqtt', 'module_dir': 'gneiss_mqt
              'tests': ['inbound_packets_from_reference_encoder_decode_faithfully', 'reference_encoder_known_vectors'], 'timeout': 3000}
 PROPS['C02']['eb'].append(EB_REFDEC)
 PROPS['C03']['eb'].append(EB_REFENC)
+
+EB_THREADED = {'name': 'driver-threaded', 'crate': 'gneiss-mqtt', 'module_dir': 'gneiss_mqtt', 'features': ['threaded'], 'raw_filters': ['verif_bounded::driver_threaded'],
+               'tests': ['threaded_driver_hands_each_connection_only_its_own_bytes', 'threaded_operations_around_close_always_resolve'], 'timeout': 3000}
+PROPS['C13']['eb'].append(EB_THREADED)
